@@ -202,11 +202,47 @@ func points(f *family, r *prng.Rand, p []float64, n int) []float64 {
 /* monitor: pointwise LogPdf (formula / support / type)
  * -------------------------------------------------------------------------- */
 
-func ptsCase(cs *fw.Case, f *family, p []float64, xs []float64) {
+// mutation describes how an object that should represent the family with the
+// parameters p is obtained by a public mutator (SetParameters, SetN, ...)
+// from an object that was constructed with other parameters.
+type mutation struct {
+	name string
+	mk   func(t ad.ScalarType) (st.ScalarPdf, error)
+}
+
+// obtain builds the distribution of a case: by the constructor, or through a
+// mutator.
+func obtain(f *family, t ad.ScalarType, p []float64, via *mutation) (d st.ScalarPdf, err error, pn *fw.Panic) {
+	if via == nil {
+		return build(f, t, p)
+	}
+	pn = fw.Call(func() { d, err = via.mk(t) })
+	return
+}
+
+func famLabel(f *family, via *mutation) string {
+	if via == nil {
+		return f.name
+	}
+	return f.name + "." + via.name
+}
+
+func ptsCase(cs *fw.Case, f *family, p []float64, xs []float64) { ptsCaseVia(cs, f, p, xs, nil) }
+
+func ptsCaseVia(cs *fw.Case, f *family, p []float64, xs []float64, via *mutation) {
 	pcl := f.pclass(p)
 	ev := map[string]any{"k": "pts", "fam": f.name, "pclass": pcl, "params": hxs(p), "x": hxs(xs)}
+	if via != nil {
+		ev["via"] = via.name
+	}
 	for _, ty := range stypes {
-		d, err, pn := build(f, ty.t, p)
+		d, err, pn := obtain(f, ty.t, p, via)
+		if via != nil && (pn != nil || err != nil || d == nil) {
+			cs.Violation(fmt.Sprintf("C14|%s|%s|mutate|roundtrip", famLabel(f, via), pcl),
+				fmt.Sprintf("%s of %s to the valid parameters %v fails (%s): %v %v", via.name, f.name, p, ty.name, err, pn),
+				map[string]any{"family": f.name, "params": p, "type": ty.name, "via": via.name})
+			return
+		}
 		if pn != nil || err != nil || d == nil {
 			msg := ""
 			if pn != nil {
@@ -229,12 +265,12 @@ func ptsCase(cs *fw.Case, f *family, p []float64, xs []float64) {
 			vals[i] = evalLP(d, ty.t, x)
 		}
 		ev["lp"+ty.name] = vals
-		cs.Cover("pts:" + f.name + "/" + ty.name)
+		cs.Cover("pts:" + famLabel(f, via) + "/" + ty.name)
 	}
 	cs.C.Data(ev)
 	cs.Cover("set:family:" + f.name)
 	cs.C.Cover("lp-evaluations", int64(2*len(xs)))
-	cs.Nontrivial("pts", f.name, fmtParams(p), fmt.Sprint(xs))
+	cs.Nontrivial("pts", famLabel(f, via), fmtParams(p), fmt.Sprint(xs))
 }
 
 type famParams struct {
@@ -369,16 +405,21 @@ func quadNodes(f *family, p []float64) ([]node, int) {
 	return ns, panels
 }
 
-func quadCase(cs *fw.Case, f *family, p []float64) {
+func quadCase(cs *fw.Case, f *family, p []float64) { quadCaseVia(cs, f, p, nil) }
+
+func quadCaseVia(cs *fw.Case, f *family, p []float64, via *mutation) {
 	pcl := f.pclass(p)
 	lo, hi, disc := f.support(p)
 	ty := stypes[cs.Index%2]
-	d, err, pn := build(f, ty.t, p)
+	d, err, pn := obtain(f, ty.t, p, via)
 	if pn != nil || err != nil || d == nil {
 		cs.Skip("constructor-failed") // reported by the pts monitor
 		return
 	}
 	ev := map[string]any{"k": "quad", "fam": f.name, "pclass": pcl, "params": hxs(p), "type": ty.name}
+	if via != nil {
+		ev["via"] = via.name
+	}
 	if disc {
 		c, s := f.center(p)
 		K := hi
@@ -416,8 +457,8 @@ func quadCase(cs *fw.Case, f *family, p []float64) {
 		cs.C.Cover("quad-evaluations", int64(len(ns)))
 	}
 	cs.C.Data(ev)
-	cs.Cover("quad:" + f.name)
-	cs.Nontrivial("quad", f.name, fmtParams(p), ty.name)
+	cs.Cover("quad:" + famLabel(f, via))
+	cs.Nontrivial("quad", famLabel(f, via), fmtParams(p), ty.name)
 }
 
 /* monitor: cumulative distribution functions
@@ -923,6 +964,8 @@ func Run(c *fw.Ctx) {
 		}
 	})
 
+	runMutate(c)
 	runWrappers(c)
 	runMulti(c)
+	runMultiWrappers(c)
 }
